@@ -324,6 +324,8 @@ def rule_reentrant(ctx):
     check_reentrant(ctx, "C05.REENTRANT", "client")
 
 
+EXPLANATION = EXPLANATION + ' C05.REENTRANT also covers a client that leaves and registers again from inside its delivery and a client that sends a message of its own through the router from inside its delivery.'
+
 RULES = [
     ("C05.REENTRANT", rule_reentrant, "clients (un)registered from inside a delivery: everybody registered at its turn is served exactly once"),
     ("C05.PRED", rule_pred, "delivery truth table of Router.process_message over class x policies x sender x device equals the property's oracle"),
